@@ -5,12 +5,13 @@
    over VALUE environments; every evaluator check of the development runs against coq/Sem.v,
    where every value is a heap cell.  Here: on the fragment [tfrag_l] (number / bool / ASCII
    string literals, variables, groups, unary - !, + - * / % and the comparisons on numbers, + and
-   the comparisons on strings, == != on numbers, bools and strings; declarations anywhere,
+   the comparisons on strings, array literals, a[i] on arrays and strings, + on arrays, == != when
+   one operand is manifestly a number, string or bool ([scalar_valued]); declarations anywhere,
    assignments to variables, if / else if / else, while, break, the empty statement), whenever
    lx_l is defined the Sem.v run of the same program ends normally, prints nothing, and every
    variable of lx_l's final environment is a global of the final Sem state whose cell reads
-   back ([reify]) as that value.  _partial: arrays, maps, indexing, slicing, %, and the for
-   loops are not covered (see the report in CompileSemTie.v). *)
+   back ([holds]; [reify] for basic cells) as that value.  _partial: maps, slices, array
+   repetition, == on arrays, non-ASCII strings and the for loops are not covered (see the report in CompileSemTie.v). *)
 From Coq Require Import ZArith NArith List String Bool Floats.
 From EvyV Require Import Base Num Ast Omap Sem CompileSemTie CompileSemTieVm.
 From EvyV Require Bytecode SymTab Vm VmProofs Compile CompileSem CompileStmtProofs.
@@ -41,7 +42,7 @@ Theorem C16_tie_program_partial : forall (P : program) (p : C.slist) fuel env' s
   good s0 -> st_total s0 = 0%nat -> st_fails s0 = 0%nat ->
   exists N s1, (forall n, (N <= n)%nat -> run_program n P s0 = (ODone, s1)) /\
                st_trace s1 = st_trace s0 /\
-               forall n v, CS.slook n env' = Some v -> sem_global s1 n = Some v.
+               forall n v, CS.slook n env' = Some v -> sem_global s1 n v.
 Proof. exact tie_program. Qed.
 Print Assumptions C16_tie_program_partial.
 
@@ -51,9 +52,17 @@ Proof. exact (proj1 (proj2 tr_rel)). Qed.
 Print Assumptions C16_tie_translation.
 
 (* reading back is the relation used in the proofs *)
-Theorem C16_tie_reify : forall h l v, holds h l v <-> reify h l = Some v.
-Proof. exact holds_reify. Qed.
+Theorem C16_tie_reify : forall h l v,
+  (reify h l = Some v -> holds h l v) /\ (scalar v -> holds h l v -> reify h l = Some v).
+Proof. intros h l v. split; [apply reify_holds | apply holds_reify]. Qed.
 Print Assumptions C16_tie_reify.
+
+(* the expression lists of array literals *)
+Theorem C16_tie_expr_list_partial : forall P l xl, xlrel l xl -> forall lenv E s vs,
+  tfrag_el l = true -> C.eval_list (fun n => CS.slook n lenv) l = Some vs ->
+  envrel lenv E s -> good s -> evs_ok P E xl s vs.
+Proof. exact (fun P => proj2 (tie_expr_all P)). Qed.
+Print Assumptions C16_tie_expr_list_partial.
 
 (* VM model = evaluator model: compile_correct_locals composed with the tie *)
 Theorem C16_vm_equals_evaluator_model_partial :
@@ -70,7 +79,7 @@ Theorem C16_vm_equals_evaluator_model_partial :
     st_trace s1 = [] /\
     forall n y v, SymTab.st_resolve n (C.csym st) = Some y -> CS.slook n env' = Some v ->
                   nth_error (Vm.globals sv) (N.to_nat (SymTab.sidx y)) = Some v /\
-                  sem_global s1 n = Some v.
+                  sem_global s1 n v.
 Proof. exact vm_equals_evaluator_model_partial. Qed.
 Print Assumptions C16_vm_equals_evaluator_model_partial.
 
@@ -112,6 +121,42 @@ Qed.
 
 Example C16_tie_ex_sem :
   let r := run_program 200 ex_P (init_state None [] false false) in
-  fst r = ODone /\ sem_global (snd r) (s_ "x") = Some (Vm.VNum 4%float) /\
-  sem_global (snd r) (s_ "s") = Some (Vm.VStr (s_ "ab")).
+  fst r = ODone /\
+  option_map (reify (st_heap (snd r))) (frame_get (s_ "x") (st_globals (snd r))) = Some (Some (Vm.VNum 4%float)) /\
+  option_map (reify (st_heap (snd r))) (frame_get (s_ "s") (st_globals (snd r))) = Some (Some (Vm.VStr (s_ "ab"))).
 Proof. vm_compute. repeat split; reflexivity. Qed.
+
+(* arrays, indexing, concatenation, string indexing:
+   a := [1 2]
+   b := a + [3]
+   x := b[2]
+   s := "hey"
+   c := s[1]
+   e := a[0] == 1 *)
+Definition ex_q : C.slist :=
+  C.SCons (C.SDecl (s_ "a") (C.EArr (C.ECons (C.ENum 1%float) (C.ECons (C.ENum 2%float) C.ENil))))
+  (C.SCons (C.SDecl (s_ "b") (C.EBin C.BPlus C.TArr C.TArr (C.EVar (s_ "a")) (C.EArr (C.ECons (C.ENum 3%float) C.ENil))))
+  (C.SCons (C.SDecl (s_ "x") (C.EIndex (C.EVar (s_ "b")) (C.ENum 2%float)))
+  (C.SCons (C.SDecl (s_ "s") (C.EStr (s_ "hey")))
+  (C.SCons (C.SDecl (s_ "c") (C.EIndex (C.EVar (s_ "s")) (C.ENum 1%float)))
+  (C.SCons (C.SDecl (s_ "e") (C.EBin C.BEq C.TNum C.TNum (C.EIndex (C.EVar (s_ "a")) (C.ENum 0%float)) (C.ENum 1%float)))
+   C.SNil))))).
+Definition ex_Q : program := {| p_funcs := []; p_handlers := []; p_stmts := tr_l ex_q |}.
+
+Example C16_tie_ex_arrays :
+  tfrag_l ex_q = true /\ CS.lpfrag ex_q = true /\
+  (exists env', CS.lx_l 40 ex_q [[]] = Some (env', false) /\
+                CS.slook (s_ "x") env' = Some (Vm.VNum 3%float) /\
+                CS.slook (s_ "c") env' = Some (Vm.VStr (s_ "e")) /\
+                CS.slook (s_ "e") env' = Some (Vm.VBool true) /\
+                CS.slook (s_ "b") env' = Some (Vm.VArr [Vm.VNum 1%float; Vm.VNum 2%float; Vm.VNum 3%float])) /\
+  (let r := run_program 200 ex_Q (init_state None [] false false) in
+   fst r = ODone /\
+   option_map (reify (st_heap (snd r))) (frame_get (s_ "x") (st_globals (snd r))) = Some (Some (Vm.VNum 3%float)) /\
+   option_map (reify (st_heap (snd r))) (frame_get (s_ "c") (st_globals (snd r))) = Some (Some (Vm.VStr (s_ "e"))) /\
+   option_map (reify (st_heap (snd r))) (frame_get (s_ "e") (st_globals (snd r))) = Some (Some (Vm.VBool true))).
+Proof.
+  split; [reflexivity|]. split; [reflexivity|]. split.
+  - eexists. split; [vm_compute; reflexivity|]. repeat split; vm_compute; reflexivity.
+  - vm_compute. repeat split; reflexivity.
+Qed.
